@@ -912,6 +912,7 @@ theorem step_sim {c : Conn} {s : Spec} (h : Sim c s) (op : Op) (s' : Spec) (r : 
   | exitExc x => simp [Spec.step] at hs
   | invalidate => simp [Spec.step] at hs
   | arm p k => simp [Spec.step] at hs
+  | disarm => simp [Spec.step] at hs
   | warm n => simp [Spec.step] at hs
   | connect => simp [Spec.step] at hs
   | gc => simp [Spec.step] at hs
